@@ -10,6 +10,8 @@ any theorem and is decided by the correspondence run against the implementation.
 -/
 import Smooth.Proofs.Eval
 import Smooth.Proofs.Vars
+import Smooth.Proofs.Forward
+import Smooth.Proofs.RatHom
 
 namespace Smooth
 open Expr
@@ -88,5 +90,226 @@ example :
     let p : Point ℝ := [("x", 1), ("y", -8)]
     WF e ∧ Supp p e ∧ Dom (valOf p) e := by
   simp [WF, WFList, Supp, SuppList, Dom, DomList, den, valOf, Point.get?]
+
+
+/-! ## The exactness sentence: the exact-rational run of the model is the real-number value
+
+C01x — the exactness sentence of C01 (and C03/C04): the exact-rational run of the model is the
+real-number value.
+
+"When every exact intermediate is a small integer or dyadic rational the result is exactly that
+number."  The correspondence harness decides this sentence by running the *same generic model* with
+the executable instance `qeNum : Num QE` (Model/Instances.lean): exact rational arithmetic on the field
+`q : Rat`, plus a flag `rep : Bool`.  The flag is bookkeeping for the harness only: it starts as
+"this number is (the value of) an IEEE double of ordinary magnitude" and every arithmetic operation
+and-s the flags of its operands with "the exact result is again such a double"; when the final flag
+holds, the harness demands bit-exact equality with the Python implementation (no rounding can have
+happened).  What "representable" means is a statement about IEEE doubles, outside Lean, and NO THEOREM
+BELOW DEPENDS ON `rep` — `φ` forgets it.
+
+What is proved here is the other half: the field `q` of the exact run *is* the real number that all
+other theorems (C01 `eval_ok_iff`, C03 `fwd_hasDerivAt`, C04 …) are about.  Precisely: on the
+rational fragment (`RatFrag`: only `const, var, add, minus, neg, mul, div, recip, npow` nodes — no
+roots, general powers, exponentials, logarithms, trigonometry, where `qeNum` answers `unsupported`
+or special-cases) the run over `qeNum` followed by `φ : QE → ℝ` equals the run over `realNum` on the
+`φ`-image of the tree and of the point — values, `DomainError`s and `CoordinateMissing`s alike.
+
+ONE SIDE CONDITION IS NECESSARY.  `qeNum.powNat a n` does not compute astronomically large exact
+powers: when `(log2 |num a| + log2 (den a) + 2) * n > 2000000` it answers `⟨0, false⟩`.  That value
+is wrong (see `powNat_guard_breaks_exactness` below: the exact run returns `0`, even flagged
+`rep = true`, where the real value is about 2.1), so every theorem carries the hypothesis that the
+guard does not fire at the powers the run takes: `EvalFits p e` for evaluation, `DiffFits p e` for
+both differentiation modes (which also square the operand of `Reciprocal` and the denominator of
+`Divide`).  `PowFits.of_small` gives the hypothesis from a bound on numerators and denominators.
+-/
+open Expr
+
+/-! ### evaluation -/
+
+/-- **the exact run is the real run**, in one equation: values and errors -/
+theorem exact_run_agrees (p : Point QE) (e : Expr QE) (hf : RatFrag e) (hs : EvalFits p e) :
+    evalG realNum (Point.mapNum φ p) (e.castNum φ) = Except.map φ (evalG qeNum p e) :=
+  evalG_hom_map p e hf hs
+
+/-- **C01, exactness sentence.**  If the exact-rational run returns `v`, evaluation over the real
+numbers of the same tree at the same point returns the real number `v.q`. -/
+theorem exact_run_is_real_value (p : Point QE) (e : Expr QE) (hf : RatFrag e) (hs : EvalFits p e)
+    {v : QE} (h : evalG qeNum p e = .ok v) :
+    evalG realNum (Point.mapNum φ p) (e.castNum φ) = .ok (φ v) := by
+  rw [evalG_hom_map p e hf hs, h]; rfl
+
+/-- … and every error of the exact run is the error of the real run … -/
+theorem exact_run_error_is_real (p : Point QE) (e : Expr QE) (hf : RatFrag e) (hs : EvalFits p e)
+    {err : Err} (h : evalG qeNum p e = .error err) :
+    evalG realNum (Point.mapNum φ p) (e.castNum φ) = .error err := by
+  rw [evalG_hom_map p e hf hs, h]; rfl
+
+/-- … in particular a `DomainError` of the exact run is a `DomainError` over the reals (the zero
+tests agree because `((q : ℚ) : ℝ) = 0 ↔ q = 0`) -/
+theorem exact_run_domain_error_is_real (p : Point QE) (e : Expr QE) (hf : RatFrag e)
+    (hs : EvalFits p e) (h : evalG qeNum p e = .error .domain) :
+    evalG realNum (Point.mapNum φ p) (e.castNum φ) = .error .domain :=
+  exact_run_error_is_real p e hf hs h
+
+/-- conversely the real run determines the exact one: a real value comes from an exact value -/
+theorem real_value_is_exact_run (p : Point QE) (e : Expr QE) (hf : RatFrag e) (hs : EvalFits p e)
+    {r : ℝ} (h : evalG realNum (Point.mapNum φ p) (e.castNum φ) = .ok r) :
+    ∃ v, evalG qeNum p e = .ok v ∧ φ v = r := by
+  rw [evalG_hom_map p e hf hs] at h
+  cases hq : evalG qeNum p e with
+  | error _ => rw [hq] at h; cases h
+  | ok v => rw [hq] at h; injection h with h; exact ⟨v, rfl, h⟩
+
+/-- on the fragment the exact run never answers `unsupported` (nor anything but the library's two
+errors) -/
+theorem exact_run_errors (p : Point QE) (e : Expr QE) (hf : RatFrag e) (hs : EvalFits p e)
+    (hwf : WF (e.castNum φ)) {err : Err} (h : evalG qeNum p e = .error err) :
+    err = .domain ∨ err = .missing :=
+  (evalR_good _ _ hwf).error_cases (exact_run_error_is_real p e hf hs h)
+
+/-- a successful exact run certifies well-formedness (`1 ≤ n` at every `npow`) … -/
+theorem exact_run_ok_WF (p : Point QE) (e : Expr QE) (hf : RatFrag e) {v : QE}
+    (h : evalG qeNum p e = .ok v) : WF (e.castNum φ) :=
+  ratfrag_ok_WF p e hf v h
+
+/-- … hence its value is the denotation `den` of C01 at a supplied point of the documented domain:
+the exact run computes "that number". -/
+theorem exact_run_is_den (p : Point QE) (e : Expr QE) (hf : RatFrag e) (hs : EvalFits p e)
+    {v : QE} (h : evalG qeNum p e = .ok v) :
+    Supp (Point.mapNum φ p) (e.castNum φ) ∧ Dom (valOf (Point.mapNum φ p)) (e.castNum φ) ∧
+      φ v = den (valOf (Point.mapNum φ p)) (e.castNum φ) :=
+  (evalR_good _ _ (ratfrag_ok_WF p e hf v h)).ok_iff.mp (exact_run_is_real_value p e hf hs h)
+
+/-- the bare-number entry point `Expression.at(number)` -/
+theorem exact_at_number_agrees (e : Expr QE) (t : QE) (hf : RatFrag e)
+    (hs : ∀ x, EvalFits [(x, t)] e) :
+    atNumber realNum (e.castNum φ) (φ t) = Except.map φ (atNumber qeNum e t) :=
+  atNumber_hom_map e t hf hs
+
+/-! ### forward mode (C03) -/
+
+theorem exact_forward_agrees (p : Point QE) (x : String) (e : Expr QE) (hf : RatFrag e)
+    (hs : DiffFits p e) :
+    fwdG realNum (Point.mapNum φ p) x (e.castNum φ) = Except.map φ (fwdG qeNum p x e) :=
+  fwdG_hom_map p x e hf hs
+
+/-- **C03, exactness.**  If exact-rational forward mode returns `d`, forward mode over the reals
+returns the real number `d.q`. -/
+theorem exact_forward_is_real_partial (p : Point QE) (x : String) (e : Expr QE) (hf : RatFrag e)
+    (hs : DiffFits p e) {d : QE} (h : fwdG qeNum p x e = .ok d) :
+    fwdG realNum (Point.mapNum φ p) x (e.castNum φ) = .ok (φ d) := by
+  rw [fwdG_hom_map p x e hf hs, h]; rfl
+
+theorem exact_forward_error_is_real (p : Point QE) (x : String) (e : Expr QE) (hf : RatFrag e)
+    (hs : DiffFits p e) {err : Err} (h : fwdG qeNum p x e = .error err) :
+    fwdG realNum (Point.mapNum φ p) x (e.castNum φ) = .error err := by
+  rw [fwdG_hom_map p x e hf hs, h]; rfl
+
+/-- composed with C03: wherever the exact run evaluates the expression, exact forward mode returns
+a rational, and that rational *is* the partial derivative of the denotation. -/
+theorem exact_forward_is_true_derivative (p : Point QE) (x : String) (e : Expr QE) (hf : RatFrag e)
+    (hs : DiffFits p e) {v : QE} (h : evalG qeNum p e = .ok v) :
+    ∃ d, fwdG qeNum p x e = .ok d ∧
+      HasDerivAt (fun t => den (upd (valOf (Point.mapNum φ p)) x t) (e.castNum φ)) (φ d)
+        (valOf (Point.mapNum φ p) x) := by
+  have hwf := ratfrag_ok_WF p e hf v h
+  obtain ⟨hS, hD, _⟩ := exact_run_is_den p e hf (DiffFits.evalFits p e hs) h
+  obtain ⟨dR, hd, hder⟩ := (fwdR_spec _ x _ hwf).1 hS hD
+  rw [fwdG_hom_map p x e hf hs] at hd
+  cases hq : fwdG qeNum p x e with
+  | error _ => rw [hq] at hd; cases hd
+  | ok d => rw [hq] at hd; injection hd with hd; exact ⟨d, rfl, hd ▸ hder⟩
+
+/-! ### reverse mode (C04) -/
+
+/-- one reverse traversal from any multiplier and accumulator -/
+theorem exact_reverse_agrees (p : Point QE) (e : Expr QE) (hf : RatFrag e) (hs : DiffFits p e)
+    (m : QE) (acc : Acc QE) :
+    revG realNum (Point.mapNum φ p) (e.castNum φ) (φ m) (Point.mapNum φ acc)
+      = Except.map (Point.mapNum φ) (revG qeNum p e m acc) :=
+  revG_hom_map p e hf hs m acc
+
+/-- **C04, exactness.**  `_numeric_partials(point)` over the exact rationals is, entry by entry,
+`_numeric_partials(point)` over the reals. -/
+theorem exact_reverse_is_real_partials (p : Point QE) (e : Expr QE) (hf : RatFrag e)
+    (hs : DiffFits p e) {t : Acc QE} (h : numericPartials qeNum p e = .ok t) :
+    numericPartials realNum (Point.mapNum φ p) (e.castNum φ) = .ok (Point.mapNum φ t) := by
+  rw [numericPartials_hom_map p e hf hs, h]; rfl
+
+/-! ### non-vacuity -/
+
+/-- x² / (x + 1/2) at x = 3 : a quotient, a natural power, a sum with a dyadic constant -/
+def c01xExpr : Expr QE := mkDiv (mkNPow (mkVar "x") 2) (mkAdd [mkVar "x", mkConst ⟨1 / 2, true⟩])
+def c01xPoint : Point QE := [("x", ⟨3, true⟩)]
+
+theorem c01x_frag : RatFrag c01xExpr := by simp [c01xExpr, RatFrag, RatFragList]
+
+theorem c01x_fits : DiffFits c01xPoint c01xExpr := by
+  simp only [c01xExpr, DiffFits, DiffFitsList, and_true, true_and]
+  exact ⟨FitsAt.of_eval (a := ⟨3, true⟩) (by decide +kernel) (by decide +kernel),
+    FitsAt.of_eval (a := ⟨7 / 2, true⟩) (by decide +kernel) (by decide +kernel)⟩
+
+/-- `exact_run_is_real_value`, `exact_run_is_den`: hypotheses met; the value 18/7 is not a double,
+and the flag says so -/
+example : RatFrag c01xExpr ∧ EvalFits c01xPoint c01xExpr ∧
+    evalG qeNum c01xPoint c01xExpr = .ok ⟨18 / 7, false⟩ :=
+  ⟨c01x_frag, DiffFits.evalFits _ _ c01x_fits, by decide +kernel⟩
+
+/-- … with a representable result: x² / (x + 1) at x = 3 is 9/4 -/
+example : evalG qeNum c01xPoint (mkDiv (mkNPow (mkVar "x") 2) (mkAdd [mkVar "x", mkConst ⟨1, true⟩]))
+    = .ok ⟨9 / 4, true⟩ := by decide +kernel
+
+/-- `exact_run_domain_error_is_real`: 1 / (x − 3) at x = 3 -/
+example :
+    let e : Expr QE := mkRecip (mkMinus (mkVar "x") (mkConst ⟨3, true⟩))
+    RatFrag e ∧ EvalFits c01xPoint e ∧ evalG qeNum c01xPoint e = .error .domain := by
+  refine ⟨by simp [RatFrag], by simp [EvalFits], by decide +kernel⟩
+
+/-- `exact_run_error_is_real` with the other error: a missing coordinate -/
+example :
+    let e : Expr QE := mkMul [mkVar "x", mkVar "y"]
+    RatFrag e ∧ EvalFits c01xPoint e ∧ evalG qeNum c01xPoint e = .error .missing := by
+  refine ⟨by simp [RatFrag, RatFragList], by simp [EvalFits, EvalFitsList], by decide +kernel⟩
+
+/-- `exact_forward_is_real_partial`, `exact_forward_is_true_derivative`:
+d/dx x²/(x + 1/2) at 3 is 48/49 -/
+example : RatFrag c01xExpr ∧ DiffFits c01xPoint c01xExpr ∧
+    fwdG qeNum c01xPoint "x" c01xExpr = .ok ⟨48 / 49, false⟩ :=
+  ⟨c01x_frag, c01x_fits, by decide +kernel⟩
+
+/-- `exact_reverse_is_real_partials` -/
+example : numericPartials qeNum c01xPoint c01xExpr = .ok [("x", ⟨48 / 49, false⟩)] := by
+  decide +kernel
+
+/-! ### the side condition is necessary, and `rep` is not a certificate by itself -/
+
+/-- **Without `EvalFits` the statement is false.**  x = 1 + 2⁻²⁰ (a double), `x ** 50000 * 2`:
+over the reals (and in Python, up to rounding) about 2.0976; the size guard of `qeNum.powNat` fires
+(42 bits × 50000 > 2000000) and answers `⟨0, false⟩`, the short-circuit of `multiply` sees "a zero
+factor" and answers a *fresh* zero — the exact run returns `0` with `rep = true`. -/
+theorem powNat_guard_breaks_exactness :
+    let x : QE := ⟨1048577 / 1048576, true⟩
+    let e : Expr QE := mkMul [mkNPow (mkVar "x") 50000, mkConst ⟨2, true⟩]
+    RatFrag e ∧ evalG qeNum [("x", x)] e = .ok ⟨0, true⟩ ∧
+      evalG realNum (Point.mapNum φ [("x", x)]) (e.castNum φ) = .ok ((φ x) ^ 50000 * 2) ∧
+      (φ x) ^ 50000 * 2 ≠ 0 := by
+  refine ⟨by simp [RatFrag, RatFragList], by decide +kernel, ?_, ?_⟩
+  · simp only [Expr.castNum, Expr.castNumList, Point.mapNum_cons, Point.mapNum_nil, evalG,
+      evalListG, Point.get?, mfNthPower, bind, Except.bind, pure, Except.pure, mfMultiply_real]
+    simp [φ]
+  · have : φ ⟨1048577 / 1048576, true⟩ ≠ 0 := by simp [φ]
+    exact mul_ne_zero (pow_ne_zero _ this) two_ne_zero
+
+/-- **`rep` alone is not sticky** (independently of the guard): ((2⁵³ + 1) − 2⁵³) − 1 is exactly 0
+but passes through 2⁵³ + 1, which is not a double (`rep = false`; in doubles the result is −1);
+`multiply` then returns a fresh zero with `rep = true`.  The harness must not read a final
+`rep = true` as "no intermediate was rounded" when a product short-circuited on a zero factor. -/
+example :
+    let z : Expr QE := mkMinus (mkMinus (mkAdd [mkConst ⟨9007199254740992, true⟩, mkConst ⟨1, true⟩])
+      (mkConst ⟨9007199254740992, true⟩)) (mkConst ⟨1, true⟩)
+    evalG qeNum [] z = .ok ⟨0, false⟩ ∧
+      evalG qeNum [] (mkMul [z, mkConst ⟨5, true⟩]) = .ok ⟨0, true⟩ := by
+  exact ⟨by decide +kernel, by decide +kernel⟩
+
 
 end Smooth
